@@ -275,6 +275,36 @@ fn writers_for(input: &[u8], with_empty_writes: bool, with_flushes: bool) -> (u6
             }
         }
     }
+    // vectored writes through the tee (two non-empty slices cut at every position): whatever the
+    // call reports as written has reached BOTH targets, also a second target that takes one byte per call
+    if (2..=5).contains(&n) {
+        for split in 1..n {
+            for kb in 0..3 {
+                let a = std::rc::Rc::new(std::cell::RefCell::new(Vec::new()));
+                let b = std::rc::Rc::new(std::cell::RefCell::new(Vec::new()));
+                let mut written = 0usize;
+                {
+                    let mut t = tee(mk_sink(0, a.clone()), mk_sink(kb, b.clone()));
+                    // write_all_vectored by hand (the std helper is unstable): advance by the reported count
+                    while written < n {
+                        let (s1, s2) = if written < split { (&input[written..split], &input[split..]) } else { (&input[written..], &input[n..]) };
+                        let bufs = [std::io::IoSlice::new(s1), std::io::IoSlice::new(s2)];
+                        match t.write_vectored(&bufs) {
+                            Ok(0) => break,
+                            Ok(k) => written += k,
+                            Err(_) => break,
+                        }
+                        calls += 1;
+                    }
+                    let _ = t.flush();
+                }
+                let (a, b) = (a.borrow().clone(), b.borrow().clone());
+                if a != input[..written] || b != input[..written] {
+                    viols.push(("tee:vectored-write-count".into(), format!("TeeWrite::write_vectored input {:?} split at {split}, second target '{}': {written} bytes reported as written, targets hold {:?} / {:?}", String::from_utf8_lossy(input), SINK_NAMES[kb], String::from_utf8_lossy(&a), String::from_utf8_lossy(&b)), json!({"kind": "tee", "input": input, "mask": split, "sinks": [0, kb]})));
+                }
+            }
+        }
+    }
     // a second target that fails once (its k-th call, taking nothing) and recovers: the failed
     // write call is reported; every LATER chunk written through the same tee reaches the first
     // target completely (a later chunk is new data, not a retry of the failed one)
